@@ -79,6 +79,9 @@ func mutate(t *rapid.T, b []byte, alphabet []string) []byte {
 func genText(tg *textTarget) func(t *rapid.T) TextCase {
 	return func(t *rapid.T) TextCase {
 		c := TextCase{Sel: rapid.IntRange(0, tg.nsel-1).Draw(t, "sel")}
+		if len(tg.hotSels) > 0 && rapid.IntRange(0, 5).Draw(t, "hot") == 0 {
+			c.Sel = rapid.SampledFrom(tg.hotSels).Draw(t, "hotsel")
+		}
 		k := rapid.IntRange(0, 9).Draw(t, "class")
 		if tg.structured != nil && rapid.IntRange(0, 9).Draw(t, "structured") < 4 {
 			b := tg.structured(t, c.Sel)
@@ -132,7 +135,7 @@ func runText(tg *textTarget) func(c TextCase) vrt.Verdict {
 		if c.Sel < 0 {
 			return vrt.Discardf("negative selector")
 		}
-		if hangSeen.Load() {
+		if hungIn("C16.text-" + tg.name) {
 			// a hung goroutine is still alive: do not pile up more of them while rapid shrinks
 			return vrt.OK(false, "skipped-after-hang")
 		}
@@ -154,7 +157,7 @@ func textProp(tg *textTarget, what, ntRule string, assumptions ...string) vrt.Pr
 		Rule: "(selector, bytes) pairs: selector uniform over " + fmt.Sprint(tg.nsel) + " " + what + "; bytes drawn from a mix of arbitrary bytes, arbitrary unicode strings, hostile constants " +
 			"(empty, quotes, backslashes, NUL, invalid UTF-8, huge numbers, deep nesting), literals of the repository's own tests, 1-4 byte-level mutations of such literals, concatenations of grammar tokens, and (decoders, flags) structured inputs that parse: " +
 			"documents of 1-5 (key path of the config type, value from a pool of fitting and ill-fitting values) pairs / argument vectors of 1-5 -name=value items, half of them mutated; " +
-			"oracle: the call returns within " + hangLimit.String() + " (only a genuine hang fails), does not panic, and on success its result has the requested type; " +
+			"oracle: the call returns within " + hangLimit.String() + " (only a genuine hang fails; after the first hang of a check the violation is reported at once and its later cases are skipped), does not panic, and on success its result has the requested type; " +
 			"non-trivial = " + ntRule + "; distinct = distinct (selector, bytes)",
 		Assumptions: append([]string{"the same target function is the body of the native fuzz target Fuzz" + "C16*; the rapid version exists so the quick tier is reproducible from a seed"}, assumptions...),
 		Gen:         genText(tg), Run: runText(tg),
@@ -173,7 +176,7 @@ func TestC16TextSplitters(t *testing.T) {
 }
 
 func TestC16TextCaseDecoders(t *testing.T) {
-	vrt.Check(t, textProp(tgtCase, "case decoders; a successfully decoded identifier is also fed to all six encoders, as the tag manglers do",
+	vrt.Check(t, textProp(tgtCase, "case decoders; a successfully decoded identifier is also fed to all six encoders, as the tag manglers do; 30% of the inputs are identifiers made of 10..40 golint initialisms (one repeated, or mixed) with a 0-2 letter non-initialism tail, bare or in camel / snake / kebab context",
 		"the identifier was accepted by the decoder"))
 }
 
@@ -199,17 +202,18 @@ func TestC16TextDecodeCue(t *testing.T) {
 }
 
 func TestC16TextEnvValue(t *testing.T) {
-	vrt.Check(t, textProp(tgtEnv, "choices of which environment variable of cfgEnv carries the bytes (one per flattened leaf, plus 'all of them')",
+	vrt.Check(t, textProp(tgtEnv, "choices: which environment variable of cfgEnv carries the bytes (one per flattened leaf, plus 'all of them'), or - picked in a sixth of the cases - a one-leaf config type whose field NAME / dials TAG is made from the bytes (letters, digits, '_', '-'; often a long run of initialisms), so that the source's own name derivation runs the case decoders over it",
 		"the value reached the string-casting stage (any outcome other than the OS rejecting the value)",
 		"a value containing NUL is rejected by os.Setenv and never reaches dials", "environment variables are restored after every case"))
 }
 
 func TestC16TextFlagArgs(t *testing.T) {
-	vrt.Check(t, textProp(tgtFlag, "config type (cfgFlag); the bytes are split on newlines into at most 24 arguments",
-		"a flag was set, or a flag value was rejected by its parser / overflow check"))
+	vrt.Check(t, textProp(tgtFlag, "modes: cfgFlag with the bytes split on newlines into at most 24 arguments, or a one-leaf config type whose field NAME / dials TAG is made from the bytes (often a long run of initialisms) with its flag given",
+		"a flag was set, or a flag value was rejected by its parser / overflow check",
+		"a generated dials tag consists of letters, digits, '_' and '-' and starts with a letter: a tag without letters flattens to an empty name (env panics deliberately), one with '=' or a leading '-' is refused by the flag package with a panic - programming errors, not inputs"))
 }
 
 func TestC16TextPflagArgs(t *testing.T) {
-	vrt.Check(t, textProp(tgtPflag, "config type (cfgFlag); the bytes are split on newlines into at most 24 arguments",
+	vrt.Check(t, textProp(tgtPflag, "modes: cfgFlag with the bytes split on newlines into at most 24 arguments, or a one-leaf config type whose field NAME / dials TAG is made from the bytes (often a long run of initialisms) with its flag given",
 		"a flag was set, or a flag value was rejected by its parser"))
 }
